@@ -47,6 +47,17 @@ class Walk(fe.Walk):
             return not self.m["empty"]
         return fe.Walk.truth(self, v, e)
 
+    def binop(self, e):
+        if e.v in ("==", "!=", ">", "<=", "<", ">=") and const_int(e.kids[1]) == 0:
+            a = strip(e.kids[0])
+            if a is not None and a.k == "MemberExpr" and a.n in ("data", "len"):
+                b = self.ev(a.kids[0])
+                if b == fe._node("R"):
+                    nonempty = not self.m["empty"]
+                    return int({"==": not nonempty, "!=": nonempty, ">": nonempty, "<=": not nonempty,
+                                "<": False, ">=": True}[e.v])
+        return fe.Walk.binop(self, e)
+
     def member(self, e):
         base = self.ev(e.kids[0])
         if isinstance(base, tuple) and base[0] == "node":
